@@ -216,7 +216,7 @@ def run(ctx):
     ctx.evaluations = len(evs)
     for e in evs[1:3]:
         ctx.sample({"argv": e["argv"], "effective": {o: "".join(map(chr, v)) for o, v in e["eff"].items() if v}, "exc": e["exc"]})
-    mism = ctx.validate_trace("Trace_GetConfig", evs, shards=1)
+    mism = ctx.validate_histories("Trace_GetConfig", evs)
     byid = {e["id"]: e for e in evs}
     for eid, clauses in mism.items():
         e = byid[eid]
